@@ -751,7 +751,8 @@ fn record(sink: &mut Sink, w: &World, scn_no: usize, args: &[ArgSpec], o: &Opts,
         }
         // file order irrelevant
         if dft && pb.screen != pc.screen {
-            return fail("file_order_irrelevant", format!("arguments {:?}: {:?} but in canonical order: {:?}", args, pb.screen, pc.screen));
+            let show = |v: &Vec<(u32, u32)>| v.iter().map(|(i, u)| { let m = &scn.msgs[*u as usize]; format!("({}, EC{:02}, +{}us)", i, m.ecu, m.rt.wrapping_sub(RHO)) }).collect::<Vec<_>>().join(" ");
+            return fail("file_order_irrelevant", format!("arguments {:?} emit (index, ecu, time) {} but the same files in canonical order {:?} emit {}", args, show(&pb.screen), canon_args(args), show(&pc.screen)));
         }
         // lifecycle ground truth vs listing
         if let (Some(rows), Some(_)) = (&p.listing, &t.lc_of) {
@@ -1239,6 +1240,124 @@ fn corpus_odd() -> (Scn, Vec<Vec<usize>>) {
     (Scn { msgs, files }, lists)
 }
 
+/// a stream of two files (ECU 1: a1 at 5 s, a2 at 12 s) next to three other streams (ECU 2: 8 s; ECU 3: 3 s, 12 s;
+/// ECU 4: 11 s).  ECU 1's and ECU 3's messages at 12 s tie.  If the streams are ordered by the first reception time
+/// of the file that happens to be NAMED first (instead of the stream's earliest file), naming a2 before a1 changes
+/// the order in which the streams enter the heap and the tie comes out the other way round.
+fn corpus_stream_files() -> (Scn, Vec<Vec<usize>>) {
+    let mk = |ecu: u8, t: u64, first: u64, mcnt: u8| M {
+        ecu,
+        rt: RHO + t * 1_000_000,
+        ts: ((t - first) * 10_000) as u32,
+        mcnt,
+        ext: false,
+        apid: 0,
+        ctid: 0,
+        boot: 0,
+        fill: 0,
+        creq: false,
+        has_ts: true,
+    };
+    let msgs = vec![mk(1, 5, 5, 0), mk(1, 12, 5, 1), mk(2, 8, 8, 2), mk(3, 3, 3, 3), mk(3, 12, 3, 4), mk(4, 11, 11, 5)];
+    let f = |v: Vec<u32>| FileSpec { garbage: vec![vec![]; v.len() + 1], msgs: v, missing: false, pad: 0 };
+    let files = vec![f(vec![0]), f(vec![1]), f(vec![2]), f(vec![3, 4]), f(vec![5])];
+    // chronological, a2 before a1, and more permutations (several name a2 first / before a1)
+    let lists = vec![vec![0, 1, 2, 3, 4], vec![1, 0, 2, 3, 4], vec![4, 3, 2, 1, 0], vec![2, 1, 3, 0, 4], vec![3, 1, 4, 2, 0], vec![1, 2, 3, 4, 0], vec![0, 2, 3, 4, 1]];
+    (Scn { msgs, files }, lists)
+}
+
+/// family aimed at the stream order: 4-6 single-ECU streams on a 1 s grid (first messages at distinct seconds, later
+/// messages in a narrow range so that cross-stream ties are frequent), 1-2 of the streams split into 2-3 consecutive
+/// files; argument lists: file-number order, chronological, reverse chronological (every stream's later files are
+/// named first), and shuffles
+fn gen_multi(rng: &mut Rng) -> (Scn, Vec<Vec<ArgSpec>>) {
+    loop {
+        let necu = rng.range(4, 6);
+        let mut firsts: Vec<u64> = (0..necu).collect();
+        shuffle(rng, &mut firsts);
+        let width = rng.range(2, 5);
+        let mut msgs: Vec<M> = vec![];
+        let mut per_ecu: Vec<Vec<u32>> = vec![];
+        for e in 0..necu {
+            let n = rng.range(1, 5);
+            let mut times = vec![firsts[e as usize]];
+            let mut later: Vec<u64> = (1..n).map(|_| necu + rng.below(width)).collect();
+            later.sort();
+            times.extend(later);
+            let mut uids = vec![];
+            for (k, t) in times.iter().enumerate() {
+                uids.push(msgs.len() as u32);
+                let ext = rng.chance(1, 2);
+                msgs.push(M {
+                    ecu: e as u8 + 1,
+                    rt: RHO + t * 1_000_000,
+                    ts: ((t - times[0]) * 10_000) as u32,
+                    mcnt: k as u8,
+                    ext,
+                    apid: if ext { rng.range(1, 3) as u8 } else { 0 },
+                    ctid: if ext { rng.range(1, 3) as u8 } else { 0 },
+                    boot: 0,
+                    fill: 0,
+                    creq: false,
+                    has_ts: true,
+                });
+            }
+            per_ecu.push(uids);
+        }
+        // split 1-2 streams with at least two messages into 2-3 consecutive files
+        let mut files: Vec<Vec<u32>> = vec![];
+        let splittable: Vec<usize> = (0..necu as usize).filter(|e| per_ecu[*e].len() >= 2).collect();
+        if splittable.is_empty() {
+            continue;
+        }
+        let mut split: BTreeSet<usize> = BTreeSet::new();
+        split.insert(*rng.pick(&splittable));
+        if rng.chance(1, 3) {
+            split.insert(*rng.pick(&splittable));
+        }
+        for e in 0..necu as usize {
+            let u = &per_ecu[e];
+            if split.contains(&e) {
+                let parts = if u.len() >= 3 && rng.chance(1, 2) { 3 } else { 2 };
+                let mut cuts: BTreeSet<usize> = BTreeSet::new();
+                while cuts.len() < parts - 1 {
+                    cuts.insert(rng.range(1, u.len() as u64 - 1) as usize);
+                }
+                let mut start = 0;
+                for c in cuts.iter().cloned().chain(std::iter::once(u.len())) {
+                    files.push(u[start..c].to_vec());
+                    start = c;
+                }
+            } else {
+                files.push(u.clone());
+            }
+        }
+        // the property's hypothesis: the files' first messages have distinct reception times
+        let mut ft: Vec<u64> = files.iter().map(|f| msgs[f[0] as usize].rt).collect();
+        ft.sort();
+        if ft.windows(2).any(|w| w[0] == w[1]) {
+            continue;
+        }
+        // file numbers in random order, so that the canonical (file-number) order is not the chronological one
+        shuffle(rng, &mut files);
+        let fs: Vec<FileSpec> = files.into_iter().map(|m| FileSpec { garbage: vec![vec![]; m.len() + 1], msgs: m, missing: false, pad: 0 }).collect();
+        let scn = Scn { msgs, files: fs };
+        let nf = scn.files.len();
+        let base: Vec<ArgSpec> = (0..nf).map(|k| (k, false)).collect();
+        let mut chrono = base.clone();
+        chrono.sort_by_key(|a| scn.first_rt(a.0));
+        let mut rev = chrono.clone();
+        rev.reverse();
+        let mut lists = vec![base.clone(), chrono, rev];
+        for _ in 0..2 {
+            let mut p = base.clone();
+            shuffle(rng, &mut p);
+            lists.push(p);
+        }
+        return (scn, lists);
+    }
+}
+
 fn perms4() -> Vec<Vec<usize>> {
     let mut out = vec![];
     for a in 0..4 {
@@ -1313,6 +1432,15 @@ fn main() {
             plans.push(Plan { scn: no, args: l.iter().map(|k| (*k, false)).collect(), opts: o, tags: vec!["corpus_odd_files"] });
         }
     }
+    {
+        let (scn, lists) = corpus_stream_files();
+        let no = w.scns.len();
+        scn.write_files(&w.root.join(format!("s{}", no)));
+        w.scns.push(scn);
+        for l in lists {
+            plans.push(Plan { scn: no, args: l.iter().map(|k| (*k, false)).collect(), opts: Opts::none(1), tags: vec!["corpus_stream_files"] });
+        }
+    }
     let nscn = a.count.unwrap_or(match a.tier.as_str() {
         "quick" => 24,
         "thorough" => 170,
@@ -1372,6 +1500,22 @@ fn main() {
                 let o = gen_opts(&mut rng, &w.scns[no], pb.screen.len(), t.rows.len() as u32, t.lc_of.is_some());
                 plans.push(Plan { scn: no, args: l.clone(), opts: o, tags: vec!["options"] });
             }
+        }
+    }
+    // ---- family aimed at the order of the streams: every scenario under 5 argument orders
+    let nmulti = match a.tier.as_str() {
+        "quick" => 10,
+        "thorough" => 80,
+        _ => 250,
+    };
+    let mut rng2 = Rng::new(a.seed ^ 0x5eed_c14);
+    for _ in 0..nmulti {
+        let (scn, lists) = gen_multi(&mut rng2);
+        let no = w.scns.len();
+        scn.write_files(&w.root.join(format!("s{}", no)));
+        w.scns.push(scn);
+        for (i, l) in lists.into_iter().enumerate() {
+            plans.push(Plan { scn: no, args: l, opts: Opts::none(if i % 2 == 0 { 3 } else { 1 }), tags: vec!["multi_stream_orders"] });
         }
     }
     let mut jobs = vec![];
